@@ -104,6 +104,7 @@ type FuncVerifier struct {
 	rmStack                                      []Term
 	riStack                                      []types.Object
 	rcStack                                      []types.Object // iteration counters of the enclosing map range loops
+	nameCount                                    map[string]int // obligation names handed out so far (uniqueName)
 	curCall                                      *ast.CallExpr
 	pick                                         func(ast.Expr) ast.Expr
 	clausePick                                   func(ast.Expr) ast.Expr
@@ -386,6 +387,21 @@ func (fv *FuncVerifier) counter(kind string) int {
 }
 
 // oblige records a proof obligation: pc ==> goal.
+// uniqueName: an obligation's name is also the name of its SMT file, and the same program point can
+// be reached more than once with the same label (a deferred closure executed at every return, a
+// loop inside an inlined callee): the second and later occurrences get a suffix @2, @3, ... so
+// that no two obligations of one function share a name (and a file).
+func (fv *FuncVerifier) uniqueName(name string) string {
+	if fv.nameCount == nil {
+		fv.nameCount = map[string]int{}
+	}
+	fv.nameCount[name]++
+	if n := fv.nameCount[name]; n > 1 {
+		return fmt.Sprintf("%s@%d", name, n)
+	}
+	return name
+}
+
 func (fv *FuncVerifier) oblige(st *State, kind, label string, goal Term, p token.Pos, human string) {
 	if fv.specMode > 0 || fv.termMode {
 		return
@@ -407,6 +423,7 @@ func (fv *FuncVerifier) oblige(st *State, kind, label string, goal Term, p token
 	if label != "" {
 		name += ":" + label
 	}
+	name = fv.uniqueName(name)
 	o := &Obligation{Name: name, Kind: kind, Func: fv.name, Goal: human, Expect: "unsat"}
 	if p.IsValid() {
 		o.Pos = fv.pos(p)
@@ -658,7 +675,7 @@ func splitFirstSexpr(s string) (first, rest string, ok bool) {
 
 // cover records a satisfiability check (vacuity guard): pc /\ cond must be sat.
 func (fv *FuncVerifier) cover(st *State, label string, cond Term, human string) *Obligation {
-	name := fmt.Sprintf("%s#cover:%s", fv.name, label)
+	name := fv.uniqueName(fmt.Sprintf("%s#cover:%s", fv.name, label))
 	o := &Obligation{Name: name, Kind: "cover", Func: fv.name, Goal: human, Expect: "sat"}
 	o.SMT = fv.buildQuery(st, cond)
 	fv.obls = append(fv.obls, o)
